@@ -851,6 +851,17 @@ class PathEval:
     # -- tests ---------------------------------------------------------------
     def const(self, e):
         """concrete python value of e on this path, or raise KeyError"""
+        # a name bound to an expression over itself (line = line.strip() on a loop variable) has no concrete value: stop instead of unfolding for ever
+        d_ = getattr(self, '_const_depth', 0)
+        if d_ > 60:
+            raise KeyError('self-referential binding')
+        self._const_depth = d_ + 1
+        try:
+            return self._const(e)
+        finally:
+            self._const_depth = d_
+
+    def _const(self, e):
         if isinstance(e, ast.Constant):
             return e.value
         if self.pred(e):
